@@ -178,8 +178,23 @@ func c10RuleLoop(c *Ctx, r *Result, fn *ssa.Function, fAction, fFail *types.Var)
 		return nil
 	}
 	if selCall != nil {
-		// the executing slice is the result of a selection helper: the sort is applied there to the
-		// value that is returned, and dominates every return
+		// the executing slice is the result of a selection helper; sorted in the processor method ...
+		if cv, isVal := selCall.(ssa.Value); isVal {
+			for _, s := range callSites(rl.Proc, isSort) {
+				if unspill(stripConv(s.Common().Args[0])) != unspill(cv) {
+					continue
+				}
+				if ls := loopStart(rl.Proc); ls != nil && dominates(s, ls) && !(inLoop(s.Block()) && sccOf(s.Block())[ls.Block()]) {
+					ok = true
+				} else {
+					why = "the sort does not dominate the rule loop"
+				}
+			}
+		}
+	}
+	if selCall != nil && !ok {
+		// ... or in the helper: the sort is applied there to the value that is returned, and
+		// dominates every return
 		for _, s := range callSites(selFn, isSort) {
 			arg := stripConv(s.Common().Args[0])
 			all := len(selVals) > 0
